@@ -54,6 +54,7 @@ const subBase = 1000
 //	coll  CollectableLambda: reads Prefix chunks of its input, closes it, returns one value
 //	sub   a nested Graph[M, M] (Sub), compiled in its own trigger mode
 //	tools StreamableLambda around compose.ToolsNode.Stream with Tools streaming tool calls (each tool a producer goroutine)
+//	pass  AddPassthroughNode (Graph modes only): the framework hands the input stream on as the output
 type NodeSpec struct {
 	Kind     string       `json:"kind"`
 	Cap      int          `json:"cap,omitempty"`
@@ -70,6 +71,7 @@ type NodeSpec struct {
 	Tools    int          `json:"tools,omitempty"`  // kind "tools": number of streaming tool calls of the ToolsNode
 	Pre      string       `json:"pre,omitempty"`    // state pre handler (Case.State only): value | stream | wrap
 	Post     string       `json:"post,omitempty"`   // state post handler: value | stream | wrap
+	Static   bool         `json:"static,omitempty"` // workflow only: SetStaticValue — the framework merges a one-chunk stream of its own into the node's input
 }
 
 // Case is one streaming run.
@@ -89,6 +91,8 @@ type Case struct {
 	InItems       int          `json:"in_items,omitempty"`
 	Handlers      int          `json:"handlers"`       // callback handlers passed with compose.WithCallbacks
 	HandlerPrefix int          `json:"handler_prefix"` // chunks each handler reads from its copy before closing it
+	SameHandler   bool         `json:"same_handler,omitempty"`  // Handlers == 2: the same handler value is passed twice
+	HandlerNodes  []int        `json:"handler_nodes,omitempty"` // one more handler each, designated to this top-level lambda node (WithCallbacks(h).DesignateNode)
 	Read          int          `json:"read"`           // -1: read the output to EOF ; k >= 0: read k chunks, then Close
 	CloseAfterEOF bool         `json:"close_after_eof,omitempty"`
 }
@@ -230,7 +234,7 @@ func uniqInts(xs []int) []int {
 }
 
 func (g *genCtx) nodeKind(n *NodeSpec) {
-	kinds := []string{"prod", "prod", "prod", "xform", "xform", "conv", "ident", "inv", "coll", "tools"}
+	kinds := []string{"prod", "prod", "prod", "xform", "xform", "conv", "ident", "inv", "coll", "tools", "pass"}
 	n.Kind = kinds[g.r.Intn(len(kinds))]
 	if n.Kind == "tools" {
 		n.Tools = g.r.Range(1, 3)
@@ -282,7 +286,7 @@ func genCase(r *lib.Rng, tier string) *Case {
 		hk := []string{"value", "stream", "wrap"}
 		for i := range c.Nodes {
 			n := &c.Nodes[i]
-			if n.Kind == "sub" || n.InKey != "" || n.OutKey != "" {
+			if n.Kind == "sub" || n.Kind == "pass" || n.InKey != "" || n.OutKey != "" {
 				continue
 			}
 			if r.Chance(1, 3) {
@@ -295,7 +299,9 @@ func genCase(r *lib.Rng, tier string) *Case {
 	}
 	// abort exits (outside the property; what they leave behind goes to the distribution)
 	if len(c.Nodes) > 0 && r.Chance(1, 14) {
-		c.Nodes[r.Intn(len(c.Nodes))].Fail = true
+		if n := &c.Nodes[r.Intn(len(c.Nodes))]; n.Kind != "pass" {
+			n.Fail = true
+		}
 	}
 	if c.Mode == "pregel" && r.Chance(1, 14) {
 		c.MaxSteps = r.Range(1, 3)
@@ -332,6 +338,16 @@ func genCase(r *lib.Rng, tier string) *Case {
 		c.Handlers = 2
 	}
 	c.HandlerPrefix = r.Intn(3)
+	if c.Handlers == 2 && r.Chance(1, 3) {
+		c.SameHandler = true
+	}
+	if len(c.Nodes) > 0 && r.Chance(1, 5) {
+		for n := r.Range(1, 2); n > 0; n-- {
+			if x := r.Intn(len(c.Nodes)); c.Nodes[x].Kind != "sub" && c.Nodes[x].Kind != "pass" {
+				c.HandlerNodes = append(c.HandlerNodes, x)
+			}
+		}
+	}
 	switch r.Intn(5) {
 	case 0:
 		c.Read = -1
@@ -523,6 +539,9 @@ func (g *genCtx) genWorkflow(c *Case, k int) {
 	children := map[int][]int{}
 	for j := 0; j < k; j++ {
 		g.nodeKind(&c.Nodes[j])
+		if c.Nodes[j].Kind == "pass" {
+			c.Nodes[j].Kind = "ident" // a Workflow node takes its input through field mappings
+		}
 		c.Nodes[j].Succ = []int{}
 		p := r.Range(-1, j-1)
 		children[p] = append(children[p], j)
@@ -690,6 +709,19 @@ func (g *genCtx) genWorkflow(c *Case, k int) {
 		fix(c.Nodes[j].Inputs)
 	}
 	fix(c.EndInputs)
+	// static values: a node all of whose data inputs are mapped to fields may get one more field from a
+	// static value (the framework merges a stream of its own into the node's input)
+	for j := range c.Nodes {
+		ok := true
+		for _, in := range c.Nodes[j].Inputs {
+			if in.Kind != "dep" && in.Map != "to" {
+				ok = false
+			}
+		}
+		if ok && r.Chance(1, 4) {
+			c.Nodes[j].Static = true
+		}
+	}
 }
 
 // calls of the compiled graph as the model wants them: for START and every node the data
